@@ -79,6 +79,13 @@ IndexRunAllowed(ev) ==
        ELSE \/ IsNeg(ev.ihi)                  \* whole run negative
             \/ (~IsNeg(ev.ilo) /\ (~IsSmall(ev.ilo) \/ ToInt(ev.ilo) >= ev.len))   \* whole run >= len
 
+\* Multi-dimensional arrays: the first index designates a ROW - an array of the remaining extent
+\* (ev.cols scalars of ev.es bytes under the layout of the memory it lives in), ev.i rows from the
+\* start of the array; what is designated has the row's size, not an element's.
+RowAllowed(ev) ==
+  /\ ev.bytes = ev.cols * ev.es
+  /\ ev.off = ev.i * ev.cols * ev.es
+
 (***************************************************************************)
 (* C10 Contract: bulk memory operations                                    *)
 (***************************************************************************)
